@@ -50,10 +50,21 @@ pub const P9: &[SPos] = &[
     SPos { name: "discovered", fen: "8/8/1P2K3/8/2n5/1q6/8/5k2 b - - 0 1", history: "" },
 ];
 
+/// Positions in which the side to move is lost whatever it plays (every root move's score drops
+/// far below the previous iteration's once the search is deep enough): used by C09 and C14 in
+/// both tiers in addition to `P9`.
+pub const LOSING: &[SPos] = &[
+    SPos { name: "facing-mate-in-2-b", fen: "8/1R3P2/2N5/2kP4/2P4P/3P4/8/6K1 b - - 0 94", history: "" },
+    SPos { name: "facing-mate-in-1-b", fen: "7k/8/5K2/6Q1/8/8/8/8 b - - 0 1", history: "" },
+    SPos { name: "facing-mate-in-2-w", fen: "7K/8/5k2/6q1/8/8/8/8 w - - 0 1", history: "" },
+    SPos { name: "facing-back-rank-w", fen: "r3k3/8/8/8/8/8/5PPP/6K1 w q - 0 1", history: "" },
+    SPos { name: "facing-ladder-b", fen: "7k/8/8/8/8/8/R7/1R4K1 b - - 0 1", history: "" },
+];
+
 /// Every listed position must be a legal position with at least one legal move (machinery error
 /// otherwise: an illegal position - side not to move in check - is outside every property's domain).
 pub fn validate() -> Result<(), String> {
-    for p in P9.iter().chain(DENSE.iter()) {
+    for p in P9.iter().chain(DENSE.iter()).chain(LOSING.iter()) {
         let (_, pos, _) = super::searchrun::open(p.fen, &hist(p)).map_err(|e| format!("search position {}: {e}", p.name))?;
         if pos.legal_moves().is_empty() {
             return Err(format!("search position {} has no legal move", p.name));
